@@ -420,8 +420,11 @@ def _slots(content):
     return children, slots
 
 
-def compare_element(cc, elem, exp, path='/'):
-    """Compares a parsed element with the model; reports deviations; returns the number of strings compared exactly."""
+def compare_element(cc, elem, exp, path='/', frozen=False):
+    """Compares a parsed element with the model; reports deviations; returns the number of strings compared exactly.
+    ``frozen``: text has already been written into an ancestor before this element was started.  XmlStream documents
+    that indentation is suspended for an element and its descendants once it holds text (mixed content), so from
+    then on no layout white space may appear in any slot of the subtree."""
     compared = 0
     here = path + exp['tag'].split('}')[-1]
     if elem.tag != exp['tag']:
@@ -451,13 +454,24 @@ def compare_element(cc, elem, exp, path='/'):
             _a(here), len(kids), _a([k.tag for k in kids][:8]), len(children), _a([c['tag'] for c in children][:8])))
         return compared
     texts = [elem.text or ''] + [k.tail or '' for k in kids]
+    suspended = frozen
+    frozen_for_child = []
     for i, (pieces, text) in enumerate(zip(slots, texts)):
         user = ''.join(pieces)
         if user == '':
             if text.strip(XML_WS) != '':
                 cc.dev('text-recovered', 'text-invented-in-empty-slot', 'at %s slot %d: parsed %s, nothing written' % (
                     _a(here), i, _a(text)))
+            elif suspended and text != '':
+                cc.cls('writer:mixed-content-descendant-slot-checked')
+                cc.dev('text-recovered', 'layout-white-space-inside-mixed-content', 'at %s slot %d: %s inserted although text was '
+                       'written earlier in this element or an ancestor (indentation is documented as suspended there)' % (_a(here), i, _a(text)))
+            elif suspended:
+                cc.cls('writer:mixed-content-descendant-slot-checked')
+            frozen_for_child.append(suspended)
             continue
+        suspended = True
+        frozen_for_child.append(True)
         if not char_only(user):
             cc.cls('writer:non-char-string-not-compared')
             continue
@@ -470,8 +484,8 @@ def compare_element(cc, elem, exp, path='/'):
             else:
                 sig = 'text-changed'
             cc.dev('text-recovered', sig, 'at %s slot %d: wrote %s, parsed %s' % (_a(here), i, _a(user), _a(text)))
-    for k, c in zip(kids, children):
-        compared += compare_element(cc, k, c, here + '/')
+    for n, (k, c) in enumerate(zip(kids, children)):
+        compared += compare_element(cc, k, c, here + '/', frozen_for_child[n] if n < len(frozen_for_child) else suspended)
     return compared
 
 
